@@ -52,6 +52,15 @@ def geNonTag (L : Nat) : NonTagOutline → Prop
   | .doctype d => geOR L d.name ∧ geOR L d.publicId ∧ geOR L d.systemId
   | _ => True
 
+/-- upper bounds of the parts of a doctype: they end at or before the cursor -/
+def leOR (U : Nat) : Option Range → Prop
+  | none => True
+  | some r => r.end ≤ U
+
+def leNonTag (U : Nat) : NonTagOutline → Prop
+  | .doctype d => leOR U d.name ∧ leOR U d.publicId ∧ leOR U d.systemId
+  | _ => True
+
 def tagAttrs : TagOutline → List AttrOutline
   | .startTag _ _ _ as _ => as
   | .endTag .. => []
@@ -150,6 +159,8 @@ structure LexRel (δ d : Nat) (ab : Ab) (np : Nat) (ls lw : LexRegs) : Prop wher
   attr : OptRel (AttrRel δ ls.lexemeStart ab.A) ls.curAttr lw.curAttr
   nt : OptRel (NonTagRel δ ls.lexemeStart ab.N) ls.curNonTag lw.curNonTag
   nc : ab.Nc = true → ∃ r, ls.curNonTag = some (.comment r)
+  ntu : ab.N = true → ∀ n, ls.curNonTag = some n → leNonTag np n
+  ntp : ab.N = true → ab.P = true → ∀ n, ls.curNonTag = some n → leNonTag (np - 1) n
 
 /-- the tag scanner's registers. `seq = true`: inside the sequence arms of a state function, where
 `ch_sequence_matching_start` is set (in both runs, to the same byte); otherwise it is `none` in the
